@@ -1644,7 +1644,15 @@ func (e *specEnv) call(n *ast.CallExpr) Term {
 			} else if v.Sort == SIface {
 				v = ifVal(v)
 			}
-			return mkAnd(mkNot(mkEq(v, i64(0))), ult(v, e.st().get("$alloc", SBV64)))
+			al := e.st().get("$alloc", SBV64)
+			ext := int64(1)
+			if pt, ok := e.typeOf(n.Args[0]).Underlying().(*types.Pointer); ok {
+				ext = tt.slotsSafe(pt.Elem())
+			}
+			if ext > 1 {
+				return mkAnd(mkNot(mkEq(v, i64(0))), ult(v, al), ule(bvAdd(v, i64(ext)), al))
+			}
+			return mkAnd(mkNot(mkEq(v, i64(0))), ult(v, al))
 		case "fresh":
 			v := e.eval(n.Args[0])
 			if v.Sort == SSlice {
